@@ -67,6 +67,12 @@ def gen(tier, rng):
             yield build(rng, 2, 0, ver, conn, True, False, transport="t")
     for x in gen_close(tier, rng):
         yield x
+    # long-lived keep-alive connections: hundreds of small requests, nothing asks for a close
+    for n, hdr in ((250, ""), (40, "User-Agent: Mozilla/5.0 (X11; Linux x86_64) AppleWebKit/537.36\r\nAccept: text/html,application/xhtml+xml;q=0.9,*/*;q=0.8\r\nAccept-Language: en-US,en;q=0.5\r\nCookie: " + "k=v; " * 40 + "\r\n")):
+        stream = b"".join(("GET /k%d HTTP/1.1\r\nHost: h\r\n%s\r\n" % (i, hdr)).encode() for i in range(n))
+        wu = [hx("/k%d" % i) for i in range(n)]
+        extra = "wu=%s we=closed" % j(wu)
+        yield cv_line(stream, [action_str([], respond_str(200, b"ok", True))], extra=extra), {"scenario": "long-keep-alive", "n": n}
 
 
 def gen_close(tier, rng):
